@@ -322,6 +322,51 @@ func blsExtras(r *rand.Rand) {
 		same := err2 == nil && rem.Equals(rest)
 		emits("bls_remove", append([]byte{byte(cut)}, id...), hex.EncodeToString(rem.Encode())+fmt.Sprint(" ", same, rem.Equals(crypto.IdentityBLSPublicKey())))
 	}
+	// key objects that are the RESULT of a removal (held in Jacobian coordinates, Z != 1) used as inputs of
+	// every group operation on keys: removed again, aggregated, encoded both ways, compared, verified under
+	for cut := 1; cut < len(pks); cut++ {
+		rem1, err := crypto.RemoveBLSPublicKeys(agg, pks[:cut]) // = sum of pks[cut:]
+		if err != nil {
+			continue
+		}
+		tag := append([]byte{byte(cut)}, id...)
+		back, e1 := crypto.RemoveBLSPublicKeys(agg, []crypto.PublicKey{rem1}) // = sum of pks[:cut]
+		front, _ := crypto.AggregateBLSPublicKeys(pks[:cut])
+		if e1 == nil {
+			emits("bls_remove_chain", tag, hex.EncodeToString(back.Encode())+fmt.Sprint(" ", back.Equals(front)))
+			// a chain: remove a removal's result and a plain key together, then the result of that once more
+			if cut >= 2 {
+				two, e2 := crypto.RemoveBLSPublicKeys(agg, []crypto.PublicKey{rem1, pks[0]})
+				if e2 == nil {
+					rest, _ := crypto.AggregateBLSPublicKeys(pks[1:cut])
+					three, e3 := crypto.RemoveBLSPublicKeys(agg, []crypto.PublicKey{two, back})
+					emits("bls_remove_chain2", tag, hex.EncodeToString(two.Encode())+fmt.Sprint(" ", two.Equals(rest), e3 == nil && three.Equals(rem1)))
+					if e3 == nil {
+						emit("bls_remove_chain3", tag, three.Encode())
+					}
+				}
+			}
+		}
+		sum, e4 := crypto.AggregateBLSPublicKeys([]crypto.PublicKey{rem1, front, rem1})
+		if e4 == nil {
+			emits("bls_agg_of_removed", tag, hex.EncodeToString(sum.Encode())+" "+hex.EncodeToString(sum.EncodeCompressed()))
+		}
+		emits("bls_removed_encodings", tag, hex.EncodeToString(rem1.Encode())+" "+hex.EncodeToString(rem1.EncodeCompressed()))
+		// a signature by the remaining signers verifies under the removal's result
+		var part []crypto.Signature
+		for _, k := range sks[cut:] {
+			sg, _ := k.Sign(id, h1)
+			part = append(part, sg)
+		}
+		as, e5 := crypto.AggregateBLSSignatures(part)
+		if e5 == nil {
+			okR, errR := rem1.Verify(as, id, h1)
+			okM, errM := crypto.VerifyBLSSignatureOneMessage([]crypto.PublicKey{rem1}, as, id, h1)
+			as2, _ := crypto.AggregateBLSSignatures([]crypto.Signature{as, as})
+			okN, errN := crypto.VerifyBLSSignatureManyMessages([]crypto.PublicKey{rem1, rem1}, as2, [][]byte{id, id}, []hash.Hasher{h1, h1})
+			emits("bls_verify_under_removed", tag, fmt.Sprint(okR, errR, okM, errM, okN, errN))
+		}
+	}
 	idk := crypto.IdentityBLSPublicKey()
 	idsig := append([]byte{0xc0}, make([]byte, 47)...)
 	emit("bls_identity_pk", id, idk.Encode())
